@@ -43,7 +43,7 @@ PROBES = ["overloads_same_param_names", "optional_param_member", "class_missing_
           "xml_member_has_extra_optional_param", "overloads_with_permuted_param_names",
           "literals_crosschecked_with_gpp", "binding_after_fault_on_its_file", "text_longer_than_512", "decoy_class_with_similar_name",
           "decoy_member_with_similar_name", "param_documented_without_text", "param_item_without_name",
-          "section_ahead_of_return", "return_section_partial", "truncation_left_document_wellformed"]
+          "section_ahead_of_return", "return_section_partial", "truncation_left_document_wellformed", "member_in_other_sectiondef"]
 
 
 def batches(tier):
@@ -372,7 +372,15 @@ def gen_case(tape, batch):
                                "tag": "defname" if tape.bool(0.15, "extra-defname") else "declname"})
                 pr["xml_member_has_extra_optional_param"] = 1
             style = tape.weighted([6, 2, 1, 1], "doc-style")     # brief+detail / brief only / detail only / none
-            m = {"name": f.name, "kind": "function", "params": params, "marker": mkr,
+            # Doxygen files static members under "public-static-func" and the members of a named group
+            # (`/// @name Testable ... @{`) under "user-defined"
+            section = "public-static-func" if f in c.of("static") else \
+                (tape.pick(["user-defined#Testable", "user-defined#Standard Interface"], "group")
+                 if tape.bool(0.25, "member-group") else "public-func")
+            if section != "public-func":
+                pr["member_in_other_sectiondef"] = 1
+            m = {"name": f.name, "kind": "function", "params": params, "marker": mkr, "section": section,
+                 "static": f in c.of("static"),
                  "brief": gen_text(tape, mkr) if style in (0, 1) else None,
                  "detailed": gen_text(tape, mkr) if style in (0, 2) else None,
                  "param_docs": [(p["name"], gen_text(tape, "")) for p in params]
@@ -468,6 +476,7 @@ def gen_case(tape, batch):
                 dm["kind"] = "variable"
                 dm["params"] = []
                 dm["argsstring"] = False
+                dm["section"] = "public-attrib"
             wrapped_names = set(entry["_arities"])
             # (a same-named data member next to a method cannot exist in C++; it is kept as a decoy only where
             #  the arity already tells it apart, like the enum-value decoy above)
@@ -475,6 +484,14 @@ def gen_case(tape, batch):
                        (how != "variable" and nm not in wrapped_names)):
                 xe["members"].insert(tape.choose(len(xe["members"]) + 1, "decoy-member-pos"), dm)
                 pr["decoy_member_with_similar_name"] = 1
+        # document order of the wrapped members (Doxygen groups members by section; a k-th binding is matched
+        # with the k-th same-named memberdef in DOCUMENT order)
+        secs = []
+        for mm in xe["members"]:
+            if mm.get("section", "public-func") not in secs:
+                secs.append(mm.get("section", "public-func"))
+        pos = {id(mm): (secs.index(mm.get("section", "public-func")), k) for k, mm in enumerate(xe["members"])}
+        entry["_doc_order"] = sorted(entry["members"], key=lambda mm: pos[id(mm)])
         if dec is not None and tape.bool(0.5, "decoy-class-first"):
             xml_classes += [dec, xe]
         elif dec is not None:
@@ -773,7 +790,7 @@ def judge(case, calls, lits, w):
         reachable = entry is not None and entry.get("in_index", True) and entry.get("has_file", True)
         exact, prefix = [], []
         if reachable:
-            for m in entry["members"]:
+            for m in entry.get("_doc_order", entry["members"]):
                 if m["name"] != c["method"] or m["kind"] != "function":
                     continue
                 names = [p["name"] if p.get("tag", "declname") else None for p in m["params"]]
